@@ -26,8 +26,8 @@ RULE = ("case = (scenario variant, injector kind); inside: every abort index; a 
 ASSUMPTIONS = ["abort = OptimizationAborted(USER_ABORT) raised by user code (observer, handler or evaluator), as BasicOptimizer.set_abort_callback does"]
 REQUIRED = {"quick": {"abort_runs.observer": 400, "abort_runs.handler": 400, "abort_runs.evaluator": 150, "events_checked": 20000, "deliveries_checked": 60000,
                       "streams_checked": 2000, "latch_checked": 900, "later_steps_refused": 300, "nested_abort_runs": 200, "basic_optimizer_abort_runs": 30, "__nontrivial__": 900},
-            "thorough": {"abort_runs.observer": 8000, "abort_runs.handler": 8000, "abort_runs.evaluator": 3000, "events_checked": 400000, "deliveries_checked": 1200000,
-                         "streams_checked": 40000, "latch_checked": 18000, "later_steps_refused": 6000, "nested_abort_runs": 4000, "basic_optimizer_abort_runs": 300, "__nontrivial__": 18000}}
+            "thorough": {"abort_runs.observer": 5000, "abort_runs.handler": 5000, "abort_runs.evaluator": 2000, "events_checked": 200000, "deliveries_checked": 1000000,
+                         "streams_checked": 25000, "latch_checked": 12000, "later_steps_refused": 6000, "nested_abort_runs": 4000, "basic_optimizer_abort_runs": 200, "__nontrivial__": 12000}}
 N = {"quick": 48, "thorough": 600}
 SCENARIOS = ["optimizer", "evaluator", "sequential", "nested"]
 
